@@ -115,13 +115,13 @@ def r2_refused_session_no_effect(repo=None):
     eff = clib.may_effect(tu)
     fn = tu.fn("digital_rf_handle_metadata")
     g = _cfg.build_c(fn)
-    sel = [n for n in g.nodes if n.kind == "cond" and n.ast is not None and "metadata_exists" in n.label]
-    if len(sel) != 1:
-        raise AnalysisError("digital_rf_handle_metadata: branch on metadata_exists not found")
-    e = sel[0].ast.strip()
-    exists_lab = "F" if (e.kind == "BinaryOperator" and e.opcode == "==" and e.children[1].intval() == 0) else "T"
-    starts = [b for b, l in g.succ[sel[0].id] if l == exists_lab]
-    reach = g.reach(starts)
+    # the verify branch (existing channel) = everything on a path through the read-only open of the properties file: from the
+    # function entry to that open and from it to the exits
+    ro = [n for n in g.nodes if n.ast is not None and any("H5F_ACC_RDONLY" in c.args[1].nsrc for c in n.ast.calls(("H5Fopen",)) if len(c.args) > 1)]
+    if len(ro) != 1:
+        raise AnalysisError("digital_rf_handle_metadata: read-only open of the existing properties file not found exactly once")
+    sel = ro
+    reach = g.reach([ro[0].id]) | (g.reach([g.entry.id]) & g.rreach([ro[0].id]))
     bad = []
     for n in g.nodes:
         if n.id in reach and n.ast is not None and n.kind in ("stmt", "cond", "return"):
